@@ -30,6 +30,7 @@ PINS = {
     "C13_error_kinds": "forall b e, conv_value b = Err e -> e = Overflow \\/ exists e', de_value false b = Err e' /\\ "
                        "(e = e' \\/ (e = Eoi /\\ e' = Invalid))",
     "C13_too_deep": "forall b, lenN b <= 4294967295 -> (conv_value b = Err TooDeep <-> de_value false b = Err TooDeep)",
+    "C13_output_bytes": "forall b b' r, bytes_ok b = true -> conv_value b = Ok (b', r) -> bytes_ok b' = true",
     "C13_total": "forall from to b, conv_value b <> Err Fuel /\\ convert_api from to b <> Err Fuel",
     "C13_downgrade": "(from = None \\/ from = Some (1, 20)) -> 14 <= min <= 19 -> bytes_ok b = true -> "
                      "lenN b <= 4294967295 -> de_value true b = Ok (v, []) -> exists b', "
